@@ -165,12 +165,17 @@ class Run:
         return r
 
     # -------------------------------------------------------------------------------- traces
-    def record(self, harness, job, kind, idx):
+    def record(self, harness, job, kind, idx, retried=False):
         out = os.path.join(self.work, "%s-%s-%d.ndjson" % (job, kind or "all", idx))
         cmd = [harness, job, "-out", out, "-tier", self.tier, "-seed", str(self.seed)]
         if kind:
             cmd += ["-kind", kind]
         env = dict(os.environ, GOMAXPROCS="4", GOMEMLIMIT="6GiB")
+        if retried:
+            env["VERIF_WATCHDOG_MS"] = str(4 * int(os.environ.get("VERIF_WATCHDOG_MS", "10000")))
+            for f in (out, out + ".cap", out + ".stats.json"):
+                if os.path.exists(f):
+                    os.remove(f)
         if harness.endswith("-race"):
             rl = os.path.join(self.work, "racelog-%s-%d" % (kind or "all", idx))
             env["VERIF_RACELOG"] = rl
@@ -179,6 +184,10 @@ class Run:
             p = subprocess.run(cmd, env=env, stdout=subprocess.PIPE, stderr=subprocess.STDOUT, text=True, timeout=900)
         except subprocess.TimeoutExpired:
             raise Infra("harness timed out: " + " ".join(cmd))
+        if p.returncode == 3 and not retried:
+            # the watchdog expired in some call.  A call that really does not return will not return the second time either;
+            # one that was only slow on a loaded machine gets four times the limit.  The second run is the one that counts.
+            return self.record(harness, job, kind, idx, retried=True)
         if p.returncode not in (0, 3):
             if self.prop != "C17":
                 raise Infra("harness failed (%d): %s\n%s" % (p.returncode, " ".join(cmd), p.stdout[-3000:]))
@@ -204,14 +213,41 @@ class Run:
             stats = json.load(open(sp))
         return out, stats, p.returncode
 
-    def split(self, path, max_bytes=24 << 20):
-        """split a trace at segment boundaries (rs = true) into pieces TLC validates in parallel"""
-        if os.path.getsize(path) <= max_bytes:
+    def split(self, path, max_bytes=24 << 20, seg_bytes=5 << 20):
+        """split a trace into pieces TLC validates in parallel: at segment boundaries (rs = 1), and inside the long
+        segments of scripted histories (runs of rs = 0 lines) - there the first line of the new piece is given the
+        previous line's post observation as its pre state, which is exactly what the trace specification continues from"""
+        if os.path.getsize(path) <= min(max_bytes, seg_bytes):
             return [(path, 0)]
-        pieces, cur, size, n, first = [], None, 0, 0, 0
+        rs_re = re.compile(rb'"rs":(\d)')
+        # pass 1: which segments contain rs = 2 lines (they refer to the segment's first state: never cut those)
+        seg_of, has2, seg = [], [], -1
         with open(path, "rb") as f:
             for line in f:
-                if cur is None or (size > max_bytes and b'"rs":1' in line):
+                m = rs_re.search(line[-200:]) or rs_re.search(line)
+                rs = int(m.group(1)) if m else 1
+                if rs == 1 or seg < 0:
+                    seg += 1
+                    has2.append(False)
+                if rs == 2:
+                    has2[seg] = True
+                seg_of.append((seg, rs))
+        pieces, cur, size, n, prev = [], None, 0, 0, None
+        with open(path, "rb") as f:
+            for line in f:
+                seg, rs = seg_of[n]
+                cut = cur is None or (size > max_bytes and rs == 1)
+                if not cut and rs == 0 and size > seg_bytes and not has2[seg] and prev is not None:
+                    try:
+                        pe = json.loads(prev)
+                        if not pe.get("obsbad") and isinstance(pe.get("post"), dict):
+                            e = json.loads(line)
+                            e["rs"], e["pre"] = 1, pe["post"]
+                            line = (json.dumps(e, separators=(",", ":")) + "\n").encode()
+                            cut = True
+                    except ValueError:
+                        pass
+                if cut:
                     if cur:
                         cur.close()
                     pp = "%s.p%d" % (path, len(pieces))
@@ -220,6 +256,7 @@ class Run:
                 cur.write(line)
                 size += len(line)
                 n += 1
+                prev = line
         if cur:
             cur.close()
         os.remove(path)
@@ -262,16 +299,30 @@ class Run:
             return kf
         return None
 
-    def run_trace_job(self, harness, tj):
-        job, spec = tj["job"], tj["spec"]
-        kinds = tj.get("kinds") or PLAN.KINDS.get(job) or [None]
-        if tj.get("together"):
-            kinds = [",".join(k for k in kinds if k)] if kinds != [None] else [None]
+    def run_traces(self, harness, harness_race, tjs):
+        """record every (job, kind) of the plan with one pool of harness processes, then validate every piece with one
+        pool of TLC processes"""
+        tasks = []
+        for ji, tj in enumerate(tjs):
+            kinds = tj.get("kinds") or PLAN.KINDS.get(tj["job"]) or [None]
+            if tj.get("together"):
+                kinds = [",".join(k for k in kinds if k)] if kinds != [None] else [None]
+            for ki, kind in enumerate(kinds):
+                tasks.append((ji, tj, kind, 100 * ji + ki))
         t = time.time()
-        with cf.ThreadPoolExecutor(max_workers=max(2, NCPU // 2)) as ex:
-            recs = list(ex.map(lambda ik: self.record(harness, job, ik[1], ik[0]), enumerate(kinds)))
+        per_job = {ji: {"job": tj["job"], "spec": tj["spec"], "events_validated": 0, "record_s": 0.0, "validate_s": 0.0}
+                   for ji, tj in enumerate(tjs)}
+
+        def rec(task):
+            ji, tj, kind, idx = task
+            t0 = time.time()
+            r = self.record(harness_race if tj.get("race") else harness, tj["job"], kind, idx)
+            per_job[ji]["record_s"] = round(max(per_job[ji]["record_s"], time.time() - t0), 1)
+            return r
+        with cf.ThreadPoolExecutor(max_workers=max(2, NCPU - 4)) as ex:
+            recs = list(ex.map(rec, tasks))
         pieces = []
-        for (path, stats, rc), kind in zip(recs, kinds):
+        for (path, stats, rc), (ji, tj, kind, idx) in zip(recs, tasks):
             self.cov["events"] += stats.get("events", 0)
             self.cov["distinct"] += stats.get("distinct", 0)
             self.cov["states_real"] += stats.get("states", 0)
@@ -286,15 +337,21 @@ class Run:
             if os.path.getsize(path) == 0:
                 continue
             for pp, off in self.split(path):
-                pieces.append((pp, off, kind))
+                pieces.append((pp, off, kind, ji))
         t1 = time.time()
-        validated = 0
-        with cf.ThreadPoolExecutor(max_workers=max(2, NCPU - 4)) as ex:
-            futs = {ex.submit(self.validate, spec, pp, off, tj.get("prop")): (pp, off, kind) for pp, off, kind in pieces}
+        pieces.sort(key=lambda x: -os.path.getsize(x[0]))      # largest first
+        with cf.ThreadPoolExecutor(max_workers=max(2, NCPU - 2)) as ex:
+            def val(piece):
+                pp, off, kind, ji = piece
+                t0 = time.time()
+                r = self.validate(tjs[ji]["spec"], pp, off, tjs[ji].get("prop"))
+                per_job[ji]["validate_s"] = round(per_job[ji]["validate_s"] + time.time() - t0, 1)   # CPU-seconds of TLC, summed
+                return r
+            futs = {ex.submit(val, piece): piece for piece in pieces}
             for fu in cf.as_completed(futs):
-                pp, off, kind = futs[fu]
+                pp, off, kind, ji = futs[fu]
                 rej, n = fu.result()
-                validated += n
+                per_job[ji]["events_validated"] += n
                 if rej:
                     evs = self.lines(pp, rej)
                     for ln in rej:
@@ -303,12 +360,15 @@ class Run:
                         if kf:
                             self.known_hits[kf["id"]] = self.known_hits.get(kf["id"], 0) + 1
                         else:
-                            self.violations.append((e, job, kind, off + ln, spec))
+                            self.violations.append((e, tjs[ji]["job"], kind, off + ln, tjs[ji]["spec"]))
                 os.remove(pp)
-        self.cov["jobs"].append({"job": job, "spec": spec, "events_validated": validated,
-                                 "record_s": round(t1 - t, 1), "validate_s": round(time.time() - t1, 1)})
-        log("  TRACE %-8s %-12s %8d events validated  record %.1fs validate %.1fs" % (job, spec, validated, t1 - t, time.time() - t1))
-        return validated
+        self.violations.sort(key=lambda v: (v[1], str(v[2]), v[3]))
+        for ji in sorted(per_job):
+            pj = per_job[ji]
+            self.cov["jobs"].append(pj)
+            log("  TRACE %-8s %-12s %8d events validated  (slowest recording %.1fs, TLC %.1f cpu-s)" % (
+                pj["job"], pj["spec"], pj["events_validated"], pj["record_s"], pj["validate_s"]))
+        log("  traces: %d pieces, recording %.1fs, validation %.1fs" % (len(pieces), t1 - t, time.time() - t1))
 
     # -------------------------------------------------------------------------------- evidence
     def evidence(self, p, nviol):
@@ -345,8 +405,11 @@ class Run:
 def describe(e):
     a = e.get("a", {})
     args = {k: v for k, v in a.items() if v not in (0, "", [], None)} if isinstance(a, dict) else a
-    return "%s.%s(%s) -> %s%s" % (e.get("kind"), e.get("op"), json.dumps(args, sort_keys=True), json.dumps(e.get("r")),
-                                  " PANIC: " + str(e.get("pmsg")) if e.get("panic") else "")
+    def short(x):
+        t = json.dumps(x, sort_keys=True)
+        return t if len(t) <= 240 else t[:200] + " ... (%d characters)" % len(t)
+    return "%s.%s(%s) -> %s%s" % (e.get("kind"), e.get("op"), short(args), short(e.get("r")),
+                                  " PANIC: " + str(e.get("pmsg"))[:300] if e.get("panic") else "")
 
 
 def check(prop, tier, seed, only_event=None):
@@ -376,10 +439,7 @@ def check(prop, tier, seed, only_event=None):
                 run.extra["model_drift"] = not all(r["identical"] for r in run.extra["model_fidelity"])
             except Exception as ex:  # never a verdict
                 run.extra["model_fidelity"] = [{"error": str(ex)[:300]}]
-        for tj in p.get("traces", []):
-            if tier == "quick" and tj.get("thorough_only"):
-                continue
-            run.run_trace_job(harness_race if tj.get("race") else harness, tj)
+        run.run_traces(harness, harness_race, [tj for tj in p.get("traces", []) if not (tier == "quick" and tj.get("thorough_only"))])
         # report
         for fid, n in sorted(run.known_hits.items()):
             kf = [k for k in run.known if k["id"] == fid][0]
